@@ -132,10 +132,13 @@ def weights(rng, m, style):
     if style == "few":
         k = rng.randint(2, 5)
         return [rng.randint(1, k) for _ in range(m)]
+    if style == "wide":
+        pool = [-(1 << 40), -(1 << 40) + 1, -5, 0, 7, (1 << 40), (1 << 40) + 1, (1 << 44) + 3]
+        return [rng.choice(pool) for _ in range(m)]
     return [rng.randint(-3, max(3, m // 2)) for _ in range(m)]
 
 
-W_STYLES = ["distinct", "equal", "two", "three", "few", "some"]
+W_STYLES = ["distinct", "equal", "two", "three", "few", "some", "wide"]
 
 
 def g_complete(rng, n, style):
@@ -293,8 +296,13 @@ def generate(rng, tier):
 
 
 # ------------------------------------------------------------------------------------------- running
+def scaled(es):
+    """every fourth case (by a hash of its edges) is fed to the C++ with its values divided by 8"""
+    return len(es) > 0 and (sum((u * 31 + v * 17 + w) for (u, v, w) in es) % 4 == 0)
+
+
 def gline(es):
-    return ("g " + " ".join("%d %d %d" % e for e in es)).strip()
+    return (("gs " if scaled(es) else "g ") + " ".join("%d %d %d" % e for e in es)).strip()
 
 
 def tie_shuffles(rng, es, k):
@@ -438,6 +446,7 @@ def evaluate(ctx, res, bins, orc, cases, record=True):
             res.count("simplices:%s" % ("<=16" if nsimp <= 16 else "<=64" if nsimp <= 64 else "<=130" if nsimp <= 130 else "<=190"))
             res.count("dims-compared:0..%d%s" % (cap, "" if full else " (truncated)"))
             ws = [w for (_, _, w) in es]
+            res.count("values-fed:%s" % ("w/8 (dyadic)" if scaled(es) else "integers"))
             res.count("ties:%s" % ("none" if len(set(ws)) == len(ws) else "all-equal" if len(set(ws)) == 1 else "heavy" if len(set(ws)) * 2 <= len(ws) else "some"))
             for p in groups:
                 kept = len(p[1].split()) // 3
